@@ -14,7 +14,9 @@
 //!       --dump writes, before emission, one line per codegen item in the order pilota-build will hand
 //!       them to write_items (single/split: Context.codegen_items; workspace: location_map iteration
 //!       order, which is the per-crate item order of group_defs):
-//!         I <mod path, comma separated, - when empty> <kind prefix> <Display of the raw name> <Display of rust_name>
+//!         I <mod path, comma separated, - when empty> <kind prefix> <Display of the raw name> <Display of rust_name> <class key>
+//!       class key = a digest of what dedup.rs def_id_equal compares (kind, name, members by id with their types; paths by the
+//!       name of their target) -- items with equal keys are structurally equal for Builder::dedup
 //!       runs Builder::compile_with_config in this process; prints one status line
 //!       `OK` | `PANIC <message>`; exit status 0 / 101 (rustfmt failure makes pilota-build
 //!       call exit(code) itself).
@@ -71,11 +73,12 @@ impl Plugin for DumpPlugin {
                 mp.iter().map(|s| (&**s).to_string()).collect::<Vec<_>>().join(",")
             };
             out.push_str(&format!(
-                "I {} {} {} {}\n",
+                "I {} {} {} {} {}\n",
                 mps,
                 prefix,
                 item.symbol_name(),
-                cx.rust_name(def_id)
+                cx.rust_name(def_id),
+                class_key(cx, &item)
             ));
         }
         std::fs::write(&self.path, out).unwrap();
@@ -200,6 +203,55 @@ impl Plugin for DeriveDumpPlugin {
         }
         std::fs::write(&self.path, out).unwrap();
     }
+}
+
+/// what dedup.rs def_id_equal looks at, as a string (paths by the name of the item they name)
+fn class_key(cx: &Context, item: &pilota_build::rir::Item) -> String {
+    fn ty_key(cx: &Context, t: &pilota_build::ty::Ty, out: &mut String) {
+        let mut paths = vec![];
+        let mut s = String::new();
+        ty_text(t, &mut s, &mut paths);
+        // replace the def ids by the names of the items
+        for d in paths {
+            let name = cx.item(d).map(|i| i.symbol_name().to_string()).unwrap_or_default();
+            s = s.replace(&format!("P{}", d.as_u32()), &format!("<{}>", name));
+        }
+        out.push_str(&s);
+    }
+    let mut k = String::new();
+    match item {
+        pilota_build::rir::Item::Message(m) => {
+            k.push_str("M:");
+            let mut fs: Vec<_> = m.fields.iter().collect();
+            fs.sort_by_key(|f| f.id);
+            for f in fs {
+                k.push_str(&format!("{}{}", f.id, if f.is_optional() { "?" } else { "!" }));
+                ty_key(cx, &f.ty, &mut k);
+                k.push(';');
+            }
+        }
+        pilota_build::rir::Item::Enum(e) => {
+            k.push_str("E:");
+            for v in e.variants.iter() {
+                k.push_str(&format!("{:?}/{:?}", v.id, v.discr));
+                for t in v.fields.iter() {
+                    ty_key(cx, t, &mut k);
+                }
+                k.push(';');
+            }
+        }
+        pilota_build::rir::Item::NewType(t) => {
+            k.push_str("N:");
+            ty_key(cx, &t.ty, &mut k);
+        }
+        pilota_build::rir::Item::Service(_) => k.push_str("S"),
+        pilota_build::rir::Item::Const(_) => k.push_str("C"),
+        pilota_build::rir::Item::Mod(_) => k.push_str("O"),
+    }
+    use std::hash::{Hash, Hasher};
+    let mut h = std::collections::hash_map::DefaultHasher::new();
+    (item.symbol_name().to_string(), k).hash(&mut h);
+    format!("{:016x}", h.finish())
 }
 
 fn usage() -> ! {
